@@ -129,6 +129,15 @@ func runC11(c *core.Ctx) {
 	}
 	c.Floor("C11.fields", n, 150, "fields of AppState and nested structs")
 
+	// ---- alias: records built in import loops must not share a backing array
+	var impFns []*ssa.Function
+	for fn := range imp {
+		impFns = append(impFns, fn)
+	}
+	sort.Slice(impFns, func(i, j int) bool { return impFns[i].String() < impFns[j].String() })
+	na := checkRetainedSlices(c, "C11.alias", impFns)
+	c.Add("C11.alias", "summary", token.NoPos, core.Discharged, fmt.Sprintf("%d loop call sites in import-reachable code hand a slice to a callee that retains it", na))
+
 	// ---- order
 	nr := 0
 	var fns []*ssa.Function
